@@ -30,6 +30,7 @@ import (
 
 // PacketRec is a packet the harness saw leaving a chain.
 type PacketRec struct {
+	PathID     string
 	Packet     channeltypes.Packet
 	SentHeight int64 // height of the sending chain
 	SentTime   time.Time
@@ -199,6 +200,7 @@ func allEvents(br *sim.BlockResult) []abci.Event {
 
 // observePackets records packets sent / received / acknowledged in a block of chain (provider = "").
 func (w *World) observePackets(p *Path, chain string, br *sim.BlockResult) {
+	w.LastRecv = nil
 	evs := allEvents(br)
 	sent, _ := ibctesting.ParsePacketsFromEvents(channeltypes.EventTypeSendPacket, evs)
 	for _, pk := range sent {
@@ -218,17 +220,20 @@ func (w *World) observePackets(p *Path, chain string, br *sim.BlockResult) {
 			srcPort, srcChan := Attr(e, channeltypes.AttributeKeySrcPort), Attr(e, channeltypes.AttributeKeySrcChannel)
 			ackHex := Attr(e, channeltypes.AttributeKeyAckHex)
 			ack := hexDecode(ackHex)
+			dstChan := Attr(e, channeltypes.AttributeKeyDstChannel)
 			for _, path := range w.pathsFor(chain, p) {
 				list := path.C2P
 				if chain != "" {
 					list = path.P2C
 				}
 				for _, rec := range list {
-					if fmt.Sprint(rec.Packet.Sequence) == seq && rec.Packet.SourcePort == srcPort && rec.Packet.SourceChannel == srcChan && rec.Ack == nil {
+					if fmt.Sprint(rec.Packet.Sequence) == seq && rec.Packet.SourcePort == srcPort && rec.Packet.SourceChannel == srcChan && rec.Packet.DestinationChannel == dstChan && rec.Ack == nil {
 						rec.Ack = ack
 						rec.AckHeight = br.Height
 						rec.Delivered = true
 						rec.RecvHeight = br.Height
+						rec.PathID = path.ID
+						w.LastRecv = append(w.LastRecv, rec)
 					}
 				}
 			}
